@@ -525,3 +525,226 @@ Example residual_drift_is_real : exists g,
   (FR drift_tol <= 1 / 1000000000000 + 1 / 10000000000000000000000000000)%R /\
   (2 * FR (nth 0 drift_x 0%float) + FR (nth 1 drift_x 0%float) - 3 >= 1 / 1000000)%R.
 Proof. exact drift_is_real. Qed.
+
+(* pending blocks of package iter2 for Props/C08.v -- append to the END of the file, as they stand.
+   The block starts with its own import sentences: they repeat the imports of the property file and add the proof files of
+   this package, so the block is independent of what was appended before it (a later `Require Import Floats` -- as in the
+   r2c2 block -- shadows leb/ltb/div/sqrt of Base.Arith with the primitive-float versions; re-importing Base.Arith after it
+   restores them).  Compiled copy of exactly these sentences: coq/Proofs/PinTest_iter2.v *)
+From Coq Require Import List Arith ZArith Floats Reals.
+From OV Require Import Base.Panic Base.Arith Model.Vector Model.Matrix Model.Sparse Model.Iter Inst.FloatInst Inst.QcInst
+  Proofs.Iter Proofs.IterField Proofs.IterInst Proofs.IterR Proofs.IterRows.
+From OV Require Import Proofs.SparseBase Proofs.SparseMul Proofs.IterSparse Proofs.IterSparseErr Proofs.IterSparseR
+  Proofs.IterSparseBreakdown Proofs.IterCGExamples.
+Import ListNotations.
+
+(* ---- round two (package iter2): the theorems above for the IMPLEMENTATION'S OWN matrix type.
+        [run_sparse sv s b x0 n tol] = run at the CSC products sp_mul s / sp_tmul s and the public fields
+        sp_rows s / sp_cols s (run_sparse_is_run above): the function the correspondence check runs against the
+        executor.  [wfS s] = the storage invariant of C06 (Proofs/SparseBase.v; duplicates allowed);
+        [sp_apply s x] = the textbook product of the matrix the storage denotes, entry i = sum_j (sp_entry s i j) x_j
+        (C07: sp_mul_spec).  No hypothesis on the shape: a run that returns anything passed the solver's own
+        guards, so the matrix is square and the vectors have its order (solver_guards_square). ---- *)
+
+(* the hypothesis LinOp of ok_means_solved / residual_invariant_* / exact_guess_ok0 discharged for EVERY well-formed square
+   compressed-sparse-column storage, from package sparse's sp_mul_spec (ring laws only) *)
+Theorem sparse_is_linop : forall (A : Arith), RingLaws A -> forall (s : sparse A) n,
+  wfS s -> sp_rows s = n -> sp_cols s = n -> LinOp n (sp_mul s).
+Proof. intros A RL s n. exact (sp_mul_LinOp RL s n). Qed.
+Check sparse_is_linop : forall (A : Arith), RingLaws A -> forall (s : sparse A) n,
+  wfS s -> sp_rows s = n -> sp_cols s = n -> LinOp n (sp_mul s).
+Print Assumptions sparse_is_linop.
+Example sparse_is_linop_nonvacuous : wfS exq_s /\ sp_rows exq_s = 2 /\ sp_cols exq_s = 2.
+Proof. split; [exact exq_s_wf | split; reflexivity]. Qed.
+
+(* ... and transpose_multiply is total on vectors of length n and adjoint to multiply:  <y, A x> = <A^T y, x>  (AdjOp) *)
+Theorem sparse_tmul_is_adjoint : forall (A : Arith), RingLaws A -> forall (s : sparse A) n,
+  wfS s -> sp_rows s = n -> sp_cols s = n -> AdjOp n (sp_mul s) (sp_tmul s).
+Proof. intros A RL s n. exact (sp_mul_AdjOp RL s n). Qed.
+Check sparse_tmul_is_adjoint : forall (A : Arith), RingLaws A -> forall (s : sparse A) n,
+  wfS s -> sp_rows s = n -> sp_cols s = n -> AdjOp n (sp_mul s) (sp_tmul s).
+Print Assumptions sparse_tmul_is_adjoint.
+Example sparse_tmul_is_adjoint_nonvacuous : wfS exq_s /\ sp_rows exq_s = 2 /\ sp_cols exq_s = 2.
+Proof. split; [exact exq_s_wf | split; reflexivity]. Qed.
+
+(* any arithmetic: whatever a solver returns (Ok or Err), the matrix was square and b, x0 have its order *)
+Theorem solver_guards_square : forall (A : SArith) sv (s : sparse (SA A)) b x0 n tol o,
+  run_sparse sv s b x0 n tol = Ok o ->
+  sp_rows s = sp_cols s /\ length b = sp_rows s /\ length x0 = sp_rows s.
+Proof. intros A sv s b x0 n tol o. exact (@run_sparse_square A sv s b x0 n tol o). Qed.
+Check solver_guards_square : forall (A : SArith) sv (s : sparse (SA A)) b x0 n tol o,
+  run_sparse sv s b x0 n tol = Ok o ->
+  sp_rows s = sp_cols s /\ length b = sp_rows s /\ length x0 = sp_rows s.
+Print Assumptions solver_guards_square.
+Example solver_guards_square_nonvacuous : exists x g, @run_sparse SAQ CG exq_s [q 1 1; q 2 1] [q 2 1; q 1 1] 10 (q 1 1000) = Ok (IOk 2, x, g).
+Proof. apply exq_run_sparse_ok. intros itol H; discriminate H. Qed.
+
+(* every field, every well-formed storage, every solver, every exit (Ok or Err), every budget: the recurrence residual the
+   last test looked at IS the true residual b - A x of the returned x, A the matrix the storage denotes *)
+Theorem residual_invariant_sparse : forall (A : SArith), FieldLaws (SA A) ->
+  forall sv (s : sparse (SA A)) b x0 max tol r x g,
+  wfS s -> run_sparse sv s b x0 max tol = Ok (r, x, g) ->
+  g_t g = zipw sub b (sp_apply s x) /\ length x = sp_cols s.
+Proof. intros A FL sv s b x0 max tol r x g. exact (run_sparse_tracks FL sv s b x0 max tol r x g). Qed.
+Check residual_invariant_sparse : forall (A : SArith), FieldLaws (SA A) ->
+  forall sv (s : sparse (SA A)) b x0 max tol r x g,
+  wfS s -> run_sparse sv s b x0 max tol = Ok (r, x, g) ->
+  g_t g = zipw sub b (sp_apply s x) /\ length x = sp_cols s.
+Print Assumptions residual_invariant_sparse.
+Example residual_invariant_sparse_nonvacuous : wfS exq_s /\ forall sv, (forall itol, sv = BiCG itol -> itol = 1 \/ itol = 2) ->
+  exists x g, @run_sparse SAQ sv exq_s [q 1 1; q 2 1] [q 2 1; q 1 1] 10 (q 1 1000) = Ok (IOk 2, x, g).
+Proof. split; [exact exq_s_wf | exact exq_run_sparse_ok]. Qed.
+
+Theorem residual_invariant_cg_sparse : forall (A : SArith), FieldLaws (SA A) ->
+  forall (s : sparse (SA A)) b x0 max tol r x g,
+  wfS s -> run_sparse CG s b x0 max tol = Ok (r, x, g) ->
+  g_t g = zipw sub b (sp_apply s x) /\ length x = sp_cols s.
+Proof. intros A FL s b x0 max tol r x g. exact (run_sparse_tracks FL CG s b x0 max tol r x g). Qed.
+Check residual_invariant_cg_sparse : forall (A : SArith), FieldLaws (SA A) ->
+  forall (s : sparse (SA A)) b x0 max tol r x g,
+  wfS s -> run_sparse CG s b x0 max tol = Ok (r, x, g) ->
+  g_t g = zipw sub b (sp_apply s x) /\ length x = sp_cols s.
+Print Assumptions residual_invariant_cg_sparse.
+
+Theorem residual_invariant_bicg_sparse : forall (A : SArith), FieldLaws (SA A) ->
+  forall itol (s : sparse (SA A)) b x0 max tol r x g,
+  wfS s -> run_sparse (BiCG itol) s b x0 max tol = Ok (r, x, g) ->
+  g_t g = zipw sub b (sp_apply s x) /\ length x = sp_cols s.
+Proof. intros A FL itol s b x0 max tol r x g. exact (run_sparse_tracks FL (BiCG itol) s b x0 max tol r x g). Qed.
+Check residual_invariant_bicg_sparse : forall (A : SArith), FieldLaws (SA A) ->
+  forall itol (s : sparse (SA A)) b x0 max tol r x g,
+  wfS s -> run_sparse (BiCG itol) s b x0 max tol = Ok (r, x, g) ->
+  g_t g = zipw sub b (sp_apply s x) /\ length x = sp_cols s.
+Print Assumptions residual_invariant_bicg_sparse.
+
+Theorem residual_invariant_bicgstab_sparse : forall (A : SArith), FieldLaws (SA A) ->
+  forall (s : sparse (SA A)) b x0 max tol r x g,
+  wfS s -> run_sparse BiCGSTAB s b x0 max tol = Ok (r, x, g) ->
+  g_t g = zipw sub b (sp_apply s x) /\ length x = sp_cols s.
+Proof. intros A FL s b x0 max tol r x g. exact (run_sparse_tracks FL BiCGSTAB s b x0 max tol r x g). Qed.
+Check residual_invariant_bicgstab_sparse : forall (A : SArith), FieldLaws (SA A) ->
+  forall (s : sparse (SA A)) b x0 max tol r x g,
+  wfS s -> run_sparse BiCGSTAB s b x0 max tol = Ok (r, x, g) ->
+  g_t g = zipw sub b (sp_apply s x) /\ length x = sp_cols s.
+Print Assumptions residual_invariant_bicgstab_sparse.
+
+Theorem residual_invariant_qmr_sparse : forall (A : SArith), FieldLaws (SA A) ->
+  forall (s : sparse (SA A)) b x0 max tol r x g,
+  wfS s -> run_sparse QMR s b x0 max tol = Ok (r, x, g) ->
+  g_t g = zipw sub b (sp_apply s x) /\ length x = sp_cols s.
+Proof. intros A FL s b x0 max tol r x g. exact (run_sparse_tracks FL QMR s b x0 max tol r x g). Qed.
+Check residual_invariant_qmr_sparse : forall (A : SArith), FieldLaws (SA A) ->
+  forall (s : sparse (SA A)) b x0 max tol r x g,
+  wfS s -> run_sparse QMR s b x0 max tol = Ok (r, x, g) ->
+  g_t g = zipw sub b (sp_apply s x) /\ length x = sp_cols s.
+Print Assumptions residual_invariant_qmr_sparse.
+
+(* Ok k: the TRUE residual of the returned x passes the code's own test ||b - A x|| / ||b||' <= tol (or <), for every
+   well-formed storage (no hypothesis on shape, symmetry, definiteness, or on the transposed product) *)
+Theorem ok_means_solved_sparse : forall (A : SArith), FieldLaws (SA A) ->
+  forall sv (s : sparse (SA A)) b x0 max tol k x g,
+  wfS s -> run_sparse sv s b x0 max tol = Ok (IOk k, x, g) ->
+  exists resid, div (norm2 (zipw sub b (sp_apply s x))) (nz (norm2 b)) = Ok resid /\
+                (leb resid tol = true \/ ltb resid tol = true).
+Proof. intros A FL sv s b x0 max tol k x g. exact (run_sparse_ok_solved FL sv s b x0 max tol k x g). Qed.
+Check ok_means_solved_sparse : forall (A : SArith), FieldLaws (SA A) ->
+  forall sv (s : sparse (SA A)) b x0 max tol k x g,
+  wfS s -> run_sparse sv s b x0 max tol = Ok (IOk k, x, g) ->
+  exists resid, div (norm2 (zipw sub b (sp_apply s x))) (nz (norm2 b)) = Ok resid /\
+                (leb resid tol = true \/ ltb resid tol = true).
+Print Assumptions ok_means_solved_sparse.
+Example ok_means_solved_sparse_nonvacuous : wfS exq_s /\ exists x g, @run_sparse SAQ BiCGSTAB exq_s [q 1 1; q 2 1] [q 2 1; q 1 1] 10 (q 1 1000) = Ok (IOk 2, x, g).
+Proof. split; [exact exq_s_wf|]. apply exq_run_sparse_ok. intros itol H; discriminate H. Qed.
+
+(* the same against the dense conversion Sparse::to_dense (DESIGN Appendix E's formulation), for storage holding no position twice:
+   mentry D i j = entry (i,j) of the row-major buffer, dmulv = the textbook matrix-vector product *)
+Theorem ok_means_solved_sparse_dense : forall (A : SArith), FieldLaws (SA A) ->
+  forall sv (s : sparse (SA A)) b x0 max tol k x g,
+  wfS s -> NoDupKeys s -> run_sparse sv s b x0 max tol = Ok (IOk k, x, g) ->
+  exists D resid, sp_to_dense s = Ok D /\
+    div (norm2 (zipw sub b (dmulv (mentry D) (rows D) (cols D) x))) (nz (norm2 b)) = Ok resid /\
+    (leb resid tol = true \/ ltb resid tol = true).
+Proof. intros A FL sv s b x0 max tol k x g. exact (run_sparse_ok_solved_dense FL sv s b x0 max tol k x g). Qed.
+Check ok_means_solved_sparse_dense : forall (A : SArith), FieldLaws (SA A) ->
+  forall sv (s : sparse (SA A)) b x0 max tol k x g,
+  wfS s -> NoDupKeys s -> run_sparse sv s b x0 max tol = Ok (IOk k, x, g) ->
+  exists D resid, sp_to_dense s = Ok D /\
+    div (norm2 (zipw sub b (dmulv (mentry D) (rows D) (cols D) x))) (nz (norm2 b)) = Ok resid /\
+    (leb resid tol = true \/ ltb resid tol = true).
+Print Assumptions ok_means_solved_sparse_dense.
+Example ok_means_solved_sparse_dense_nonvacuous : wfS exq_s /\ NoDupKeys exq_s.
+Proof. split; [exact exq_s_wf | exact exq_s_nodup]. Qed.
+
+(* over the real numbers with the standard square root:  ||b - A x||_2 <= tol * ||b||'  for every well-formed storage *)
+Theorem ok_means_solved_sparse_R : forall sv (s : sparse AR) (b x0 : list R) max (tol : R) k x g,
+  wfS s -> @run_sparse SAR sv s b x0 max tol = Ok (IOk k, x, g) ->
+  (@norm2 SAR (@zipw AR Rminus b (@sp_apply AR s x)) <= tol * @nz SAR (@norm2 SAR b))%R.
+Proof. intros sv s b x0 max tol k x g. exact (run_sparse_ok_solved_R sv s b x0 max tol k x g). Qed.
+Check ok_means_solved_sparse_R : forall sv (s : sparse AR) (b x0 : list R) max (tol : R) k x g,
+  wfS s -> @run_sparse SAR sv s b x0 max tol = Ok (IOk k, x, g) ->
+  (@norm2 SAR (@zipw AR Rminus b (@sp_apply AR s x)) <= tol * @nz SAR (@norm2 SAR b))%R.
+Print Assumptions ok_means_solved_sparse_R.
+Example ok_means_solved_sparse_R_nonvacuous : wfS exr_s /\ exists b g, length b = 2 /\
+    @run_sparse SAR CG exr_s b [1%R; 2%R] 5 1%R = Ok (IOk 0, [1%R; 2%R], g).
+Proof. split; [exact exr_s_wf|]. apply exr_run_ok. intros itol H; discriminate H. Qed.
+
+(* ---- the other half: what a reported FAILURE means.  ANY arithmetic (floats included), every solver, every Err exit (budget exhausted or a
+   breakdown exit): the value e of Err(e) is the code's error measure norm2 / ||b||' of the very vector the ghost g_t names (the recurrence
+   residual); and an Err through budget exhaustion (exit code 2) carries a value that FAILED the last convergence test *)
+Theorem err_value_reported : forall (A : SArith) (mulA mulAT : list (T (SA A)) -> res (list (T (SA A)))) rows cols
+    sv b x0 n tol e x g,
+  run mulA mulAT rows cols sv b x0 n tol = Ok (IErr e, x, g) ->
+  div (norm2 (g_t g)) (nz (norm2 b)) = Ok e /\ (g_exit g = 2 -> leb e tol = false \/ ltb e tol = false).
+Proof. intros A mulA mulAT rows cols sv b x0 n tol e x g. exact (run_err_value mulA mulAT rows cols sv b x0 n tol e x g). Qed.
+Check err_value_reported : forall (A : SArith) (mulA mulAT : list (T (SA A)) -> res (list (T (SA A)))) rows cols
+    sv b x0 n tol e x g,
+  run mulA mulAT rows cols sv b x0 n tol = Ok (IErr e, x, g) ->
+  div (norm2 (g_t g)) (nz (norm2 b)) = Ok e /\ (g_exit g = 2 -> leb e tol = false \/ ltb e tol = false).
+Print Assumptions err_value_reported.
+Example err_value_reported_nonvacuous : exit_code kf_stab_run = Some 10 /\ exit_code kf_qmr_run = Some 21 /\ exit_code (kf_bicg_run 1) = Some 2.
+Proof. split; [exact kf_stab_exit_lemma|]. split; [exact kf_qmr_exit_lemma | exact (proj1 (proj2 (proj2 bicg_no_breakdown_test_lemma)))]. Qed.
+
+(* over a field with a linear product: Err(e) reports the TRUE relative residual ||b - A x|| / ||b||' of the returned x *)
+Theorem err_reports_true_residual : forall (A : SArith), FieldLaws (SA A) ->
+  forall n (mulA mulAT : list (T (SA A)) -> res (list (T (SA A)))) cols sv b x0 max tol e x g,
+  LinOp n mulA -> run mulA mulAT n cols sv b x0 max tol = Ok (IErr e, x, g) ->
+  exists ax, mulA x = Ok ax /\ div (norm2 (zipw sub b ax)) (nz (norm2 b)) = Ok e /\
+    (g_exit g = 2 -> leb e tol = false \/ ltb e tol = false).
+Proof. intros A FL n mulA mulAT cols sv b x0 max tol e x g. exact (run_err_true_residual FL n mulA mulAT cols sv b x0 max tol e x g). Qed.
+Check err_reports_true_residual : forall (A : SArith), FieldLaws (SA A) ->
+  forall n (mulA mulAT : list (T (SA A)) -> res (list (T (SA A)))) cols sv b x0 max tol e x g,
+  LinOp n mulA -> run mulA mulAT n cols sv b x0 max tol = Ok (IErr e, x, g) ->
+  exists ax, mulA x = Ok ax /\ div (norm2 (zipw sub b ax)) (nz (norm2 b)) = Ok e /\
+    (g_exit g = 2 -> leb e tol = false \/ ltb e tol = false).
+Print Assumptions err_reports_true_residual.
+Example err_reports_true_residual_nonvacuous : LinOp 2 (@sp_mul AQ exq_s) /\ exists e x g,
+    @run SAQ (sp_mul exq_s) (sp_tmul exq_s) 2 2 CG [q 1 1; q 2 1] [q 2 1; q 1 1] 1 (q 1 1000) = Ok (IErr e, x, g).
+Proof. split; [exact exq_lin|]. apply (@is_err_witness SAQ). vm_compute. reflexivity. Qed.
+
+Theorem err_reports_true_residual_sparse : forall (A : SArith), FieldLaws (SA A) ->
+  forall sv (s : sparse (SA A)) b x0 max tol e x g,
+  wfS s -> run_sparse sv s b x0 max tol = Ok (IErr e, x, g) ->
+  div (norm2 (zipw sub b (sp_apply s x))) (nz (norm2 b)) = Ok e /\
+  (g_exit g = 2 -> leb e tol = false \/ ltb e tol = false).
+Proof. intros A FL sv s b x0 max tol e x g. exact (run_sparse_err_true_residual FL sv s b x0 max tol e x g). Qed.
+Check err_reports_true_residual_sparse : forall (A : SArith), FieldLaws (SA A) ->
+  forall sv (s : sparse (SA A)) b x0 max tol e x g,
+  wfS s -> run_sparse sv s b x0 max tol = Ok (IErr e, x, g) ->
+  div (norm2 (zipw sub b (sp_apply s x))) (nz (norm2 b)) = Ok e /\
+  (g_exit g = 2 -> leb e tol = false \/ ltb e tol = false).
+Print Assumptions err_reports_true_residual_sparse.
+Example err_reports_true_residual_sparse_nonvacuous : wfS exq_s /\ exists e x g,
+    @run_sparse SAQ CG exq_s [q 1 1; q 2 1] [q 2 1; q 1 1] 1 (q 1 1000) = Ok (IErr e, x, g).
+Proof. split; [exact exq_s_wf|]. apply (@is_err_witness SAQ). vm_compute. reflexivity. Qed.
+
+(* over R: e = ||b - A x||_2 / ||b||', and after budget exhaustion tol <= e: Ok k <-> solved to tol, Err(e) at exhaustion <-> not below tol *)
+Theorem err_reports_true_residual_sparse_R : forall sv (s : sparse AR) (b x0 : list R) max (tol : R) e x g,
+  wfS s -> @run_sparse SAR sv s b x0 max tol = Ok (IErr e, x, g) ->
+  e = (@norm2 SAR (@zipw AR Rminus b (@sp_apply AR s x)) * / @nz SAR (@norm2 SAR b))%R /\
+  (g_exit g = 2 -> (tol <= e)%R).
+Proof. intros sv s b x0 max tol e x g. exact (run_sparse_err_true_residual_R sv s b x0 max tol e x g). Qed.
+Check err_reports_true_residual_sparse_R : forall sv (s : sparse AR) (b x0 : list R) max (tol : R) e x g,
+  wfS s -> @run_sparse SAR sv s b x0 max tol = Ok (IErr e, x, g) ->
+  e = (@norm2 SAR (@zipw AR Rminus b (@sp_apply AR s x)) * / @nz SAR (@norm2 SAR b))%R /\
+  (g_exit g = 2 -> (tol <= e)%R).
+Print Assumptions err_reports_true_residual_sparse_R.
